@@ -88,6 +88,26 @@ def check_matrix_direction(F, rep):
                 if p_.get("k") == "mcall" and p_.get("n") in ("map", "and_then") and child is p_.get("r") \
                         and any(is_inv(x) for a_ in p_.get("a", []) for x, _q in facts.walk(a_)):
                     flips += 1
+            # a source bound to a local first (`let m = rgb_to_xyz_matrix(); matrix_inverse(m)`): count the inversions around the uses of the local
+            for p_ in chain[:-1]:
+                if p_.get("k") == "let" and isinstance(p_.get("pat"), dict) and p_["pat"].get("k") == "bind" and p_.get("init") is not None \
+                        and any(node is x for x, _q in facts.walk(p_["init"])):
+                    nm_ = p_["pat"]["n"]
+                    use_flips = set()
+                    for u, ups in facts.walk(b["body"]):
+                        if u.get("k") == "path" and isinstance(u.get("res"), dict) and u["res"].get("k") == "local" and u["res"].get("n") == nm_:
+                            uc = list(ups) + [u]
+                            f2 = 0
+                            for j_, q_ in enumerate(uc[:-1]):
+                                ch = uc[j_ + 1]
+                                if q_.get("k") == "call" and is_inv(q_) and any(ch is a_ for a_ in q_.get("a", [])):
+                                    f2 += 1
+                                if q_.get("k") == "mcall" and q_.get("n") in ("map", "and_then") and ch is q_.get("r") \
+                                        and any(is_inv(x) for a_ in q_.get("a", []) for x, _q2 in facts.walk(a_)):
+                                    f2 += 1
+                            use_flips.add(f2 % 2)
+                    if len(use_flips) == 1:
+                        flips += use_flips.pop()
             d = base if flips % 2 == 0 else ("xyz->rgb" if base == "rgb->xyz" else "rgb->xyz")
             if d != WANT[b["name"]]:
                 problems.append("%s (a %s matrix%s) flows into the %s matrix" % (f.split("::")[-1] if "RgbSpace" not in f else "RgbSpace::" + f.split("::")[-1], base,
